@@ -284,19 +284,22 @@ class Popen(AgentExecutingComponent):
         _start_new_session = self.session.rcfg.new_session_per_task or False
 
         self._prof.prof('task_run_start', uid=tid)
-        task['proc'] = sp.Popen(args              = launch_path,
-                                executable        = None,
-                                shell             = False,
-                                stdin             = None,
-                                stdout            = _launch_out_h,
-                                stderr            = sp.STDOUT,
-                                start_new_session = _start_new_session,
-                                close_fds         = True,
-                                cwd               = sbox)
+        # NOTE: once `task['proc']` is set, a concurrent cancellation may
+        #       collect the process and remove that entry again
+        proc = sp.Popen(args              = launch_path,
+                        executable        = None,
+                        shell             = False,
+                        stdin             = None,
+                        stdout            = _launch_out_h,
+                        stderr            = sp.STDOUT,
+                        start_new_session = _start_new_session,
+                        close_fds         = True,
+                        cwd               = sbox)
+        task['proc'] = proc
         self._prof.prof('task_run_ok', uid=tid)
 
         # store pid for last-effort termination
-        _pids.append(task['proc'].pid)
+        _pids.append(proc.pid)
 
         # handle task timeout if needed
         self.handle_timeout(task)
